@@ -37,6 +37,7 @@ Sig == [interpret |-> <<<<"tree">>, "graph", FALSE>>,
         union_inplace |-> <<<<"graph", "graph">>, "", TRUE>>,
         difference_inplace |-> <<<<"graph", "graph">>, "", TRUE>>,
         set_top |-> <<<<"graph">>, "", TRUE>>,
+        add_marker |-> <<<<"graph">>, "", TRUE>>,       \* the documented way to annotate: g.epidata[triple].append(marker)
         rearrange |-> <<<<"tree">>, "", TRUE>>,
         reset_variables |-> <<<<"tree">>, "", TRUE>>]
 Ops == DOMAIN Sig
@@ -66,7 +67,8 @@ Binary == {op \in Ops : Len(Sig[op][1]) = 2}
 Observers == {"encode", "queries", "diagnostics", "alignments"}
 DNext == \/ Len(hist) = 0 /\ \E op \in GraphMakers, a \in {3, 4} : Call(op, <<a>>)
          \/ Len(hist) = 1 /\ \E op \in Binary : LET a == hist[1].args[1] IN Call(op, <<a, 5>>) \/ Call(op, <<5, a>>)
-         \/ Len(hist) = 2 /\ \E op \in Observers : Call(op, <<hist[1].args[1]>>)
+         \/ Len(hist) = 2 /\ (\/ \E op \in Observers : Call(op, <<hist[1].args[1]>>)
+                             \/ \E x \in DOMAIN pool : Call("add_marker", <<x>>))        \* marker lists shared between two objects show here
          \/ Len(hist) = 3 /\ \E op \in Observers : Call(op, <<5>>)
 DSpec == Init /\ [][DNext]_<<pool, hist>>
 DExport == Len(hist) = 4 => PrintT("X|" \o ToJson([hist |-> hist]))
